@@ -1078,9 +1078,9 @@ def merge_cases(draw):
 def kinds(tier):
     return [
         Kind("commit", run, strategy=cases(3 if tier == "quick" else 4),
-             examples={"quick": 400, "thorough": 12000}),
+             examples={"quick": 520, "thorough": 12000}),
         Kind("merge-commit", run_merge, strategy=merge_cases(),
-             examples={"quick": 160, "thorough": 5000}),
+             examples={"quick": 240, "thorough": 5000}),
         Kind("fault", run_fault, strategy=cases(2, fault=True),
-             examples={"quick": 160, "thorough": 5000}),
+             examples={"quick": 240, "thorough": 5000}),
     ]
